@@ -238,7 +238,7 @@ func genMutant(t *rapid.T) Case {
 				sb.WriteByte('-')
 			}
 			sb.WriteString(strings.Repeat("0", rapid.SampledFrom([]int{0, 0, 0, 1, 3}).Draw(t, "lead0")))
-			ni := rapid.SampledFrom([]int{0, 1, 1, 2, 5, 15, 16, 17, 20, 25, 310}).Draw(t, "nint")
+			ni := rapid.SampledFrom([]int{0, 1, 1, 2, 5, 15, 16, 17, 18, 19, 19, 20, 21, 25, 310}).Draw(t, "nint")
 			for j := 0; j < ni; j++ {
 				sb.WriteByte(byte('0' + rapid.IntRange(0, 9).Draw(t, "id")))
 			}
